@@ -208,6 +208,27 @@ func runC08(seed uint64, n int, outDir string, replay string) {
 						}
 					}
 				})
+			// the same probe on a header after the KawPow fork, where the share-difficulty fields exist and are sealed
+			{
+				wf := types.CopyWorkObjectHeader(wh)
+				wf.SetPrimeTerminusNumber(new(big.Int).SetUint64(params.KawPowForkBlock + uint64(rc.Intn(1000))))
+				wf.SetShaDiffAndCount(types.NewPowShareDiffAndCount(big.NewInt(int64(1000+rc.Intn(1000))), big.NewInt(int64(rc.Intn(50))), big.NewInt(int64(rc.Intn(5)))))
+				wf.SetScryptDiffAndCount(types.NewPowShareDiffAndCount(big.NewInt(int64(2000+rc.Intn(1000))), big.NewInt(int64(rc.Intn(50))), big.NewInt(int64(rc.Intn(5)))))
+				wf.SetShaShareTarget(big.NewInt(int64(1 + rc.Intn(1_000_000))))
+				wf.SetScryptShareTarget(big.NewInt(int64(1 + rc.Intn(1_000_000))))
+				wf.SetKawpowDifficulty(big.NewInt(int64(1 + rc.Intn(1_000_000))))
+				fbase, fseal := enc(wf), wf.SealHash()
+				settersProbe(rc, wf, func() any { return types.CopyWorkObjectHeader(wf) }, map[string]bool{"SetNonce": true, "SetMixHash": true, "SetAuxPow": true},
+					func(name string, m any) {
+						x := m.(*types.WorkObjectHeader)
+						if enc(x) != fbase {
+							o.Count("seal-probe-after-fork:" + name)
+							if x.SealHash() == fseal {
+								o.Violate("c08-field-not-in-seal:"+name, fmt.Sprintf("after the KawPow fork %s changes the encoded header but not its seal hash", name))
+							}
+						}
+					})
+			}
 			hd := wo.Header()
 			fuzzSetters(rc, hd, common.Location{0, 0})
 			henc := func(x *types.Header) string {
